@@ -78,6 +78,19 @@ func applyVariant(variant string) {
 					_ = ciexyz.TransformFromXYZForXYYPrimaries(s.PR(), s.PG(), s.PB(), w)
 				}
 			}
+		case "imgfirst":
+			// the image transforms (with several workers) are the first thing the process asks of a space
+			for _, s := range libSpaces {
+				src := image.NewRGBA64(image.Rect(0, 0, 16, 16))
+				for i := range src.Pix {
+					src.Pix[i] = uint8(i*29 + 3)
+				}
+				for i := 6; i < len(src.Pix); i += 8 {
+					src.Pix[i], src.Pix[i+1] = 0xff, 0xff
+				}
+				s.LineariseImage(image.NewNRGBA64(src.Rect), src, 4)
+				s.EncodeImage(image.NewRGBA64(src.Rect), src, 4)
+			}
 		case "encfirst":
 			for _, s := range libSpaces {
 				if s.To16 != nil {
